@@ -738,7 +738,7 @@ func main() {
 	stacksZOH := stacksOver([][]byte{itZ, itO, itH}, 3)       // 40 stacks
 	stacksZOTH := stacksOver([][]byte{itZ, itO, itT, itH}, 3) // 85 stacks
 	stacks6 := [][][]byte{{}, {itO}, {itZ}, {itO, itO}, {itO, itO, itO}, {itH, itZ, itZ}}
-	stacks2 := [][][]byte{{}, {itO, itO, itO}}
+	stacks4 := [][][]byte{{}, {itO, itO, itO}, {itO, itO}, {itH, itZ, itZ}}
 
 	// ---- family F1: every program of <= maxLen symbols
 	maxLen := run.Pick(3, 4)
@@ -757,7 +757,7 @@ func main() {
 		case n == 3 && thorough:
 			stacks, pl = stacksZOH, plan{extras: []int64{0, 1, 40}, max: true, quickBase: true}
 		default:
-			stacks, pl = stacks2, plan{quickBase: true, lean: true}
+			stacks, pl = stacks4, plan{quickBase: true, lean: true}
 		}
 		pl.family = fmt.Sprintf("F1/len%d", n)
 		curFamily = pl.family
@@ -782,8 +782,8 @@ func main() {
 						p.verify = pl.verify || (k%len(stacks) == i && n <= 3) || (n > 3 && k%16 == 0 && (k/16)%len(stacks) == i)
 						w.evalCase(p, prog, st)
 					}
-					if n == 3 && thorough && k%8 == 0 {
-						// (thorough) a full low-limit sweep on a rotating eighth of the 3-symbol programs
+					if n == 3 && thorough {
+						// (thorough) a full low-limit sweep for the 3-symbol programs on six stacks
 						ps := plan{sweep: 41, family: pl.family + "/sweep", quickBase: true}
 						for _, st := range stacks6 {
 							w.evalCase(ps, prog, st)
